@@ -14,8 +14,10 @@ EXCLUDE = set(sys.argv[3].split(",")) if len(sys.argv) > 3 and sys.argv[3] else 
 
 # ---- field types ------------------------------------------------------------
 class FT:
-    def __init__(self, key, ty, vals, attrs="", generic=False, named_only=False):
+    def __init__(self, key, ty, vals, attrs="", generic=False, named_only=False, conv=None, json_key=None):
         self.key, self.ty, self.vals, self.attrs, self.generic, self.named_only = key, ty, vals, attrs, generic, named_only
+        self.conv = (not attrs) if conv is None else conv
+        self.json_key = json_key
     # vals: list of (orig_expr, expected_roundtrip_expr, json_literal or None if absent)
 
 ENT = FT("E", "Entity", [("e0", "f0", "[100]"), ("e1", "f1", "[101]")])
@@ -29,6 +31,10 @@ ARR = FT("A", "[u32; 2]", [("[3, 4]", "[3, 4]", "[3,4]"), ("[4, 3]", "[4, 3]", "
 SKU = FT("K", "u32", [("5", "5", "5"), ("6", "6", "6")], attrs="#[convert_save_load_skip_convert] ")
 SKO = FT("O", "Opaque", [("Opaque(0)", "Opaque(0)", None), ("Opaque(9)", "Opaque(0)", None)],
          attrs="#[convert_save_load_skip_convert] #[convert_save_load_attr(serde(skip, default))] ", named_only=True)
+# two forwarded attributes on one (converted) field: both must reach the generated data type
+FW1 = FT("F1", "u32", U32.vals, attrs='#[convert_save_load_attr(serde(default))] #[convert_save_load_attr(serde(rename = "rn1"))] ', named_only=True, conv=True, json_key="rn1")
+FW2 = FT("F2", "Entity", ENT.vals, attrs='#[convert_save_load_attr(serde(rename = "rn2"))] #[convert_save_load_attr(serde(alias = "al2"))] ', named_only=True, conv=True, json_key="rn2")
+FW3 = FT("F3", "u32", U32.vals, attrs='#[convert_save_load_attr(serde(alias = "al3"))] #[convert_save_load_attr(serde(rename = "rn3"))] #[convert_save_load_attr(serde(default))] ', named_only=True, conv=True, json_key="rn3")
 GEN_E = FT("Ge", "G", ENT.vals, generic=True)   # G instantiated with Entity
 GEN_U = FT("Gu", "G", U32.vals, generic=True)   # G instantiated with u32
 
@@ -63,7 +69,7 @@ def json_named(fields, choice):
     for i, (ft, c) in enumerate(zip(fields, choice)):
         j = ft.vals[c][2]
         if j is not None:
-            items.append(f'"f{i}":{j}')
+            items.append(f'"{ft.json_key or ("f%d" % i)}":{j}')
     return "{" + ",".join(items) + "}"
 
 def json_tuple(fields, choice):
@@ -73,7 +79,7 @@ def json_tuple(fields, choice):
     return "[" + ",".join(js) + "]"
 
 def converts(f):
-    return not f.attrs
+    return f.conv
 
 def add_struct(fields, named):
     # the derive needs at least one converted field (otherwise the marker parameter of the
@@ -169,6 +175,12 @@ for named in (True, False):
                     continue
                 for pat in ([a, a, b], [a, b, a], [b, a, a]):
                     add_struct(pat, named)
+    # forwarded attributes, two and three on one field
+    for fw in (FW1, FW2, FW3):
+        add_struct([fw], named)
+        add_struct([ENT, fw], named)
+        add_struct([fw, U32, ENT], named)
+    add_struct([FW1, FW2, FW3], named)
     # generics
     for gft in (GEN_E, GEN_U):
         add_struct([gft], named)
@@ -199,6 +211,7 @@ for w in (10, 11, 12):
     add_enum([("tuple", wide(w)), ("unit", [])])
     add_enum([("named", wide(w))])
     add_enum([("tuple", [ENT] + wide(w - 2) + [ENT]), ("tuple", wide(w))])
+add_enum([("named", [FW1, ENT]), ("named", [FW3, FW2])])
 add_enum([("tuple", [GEN_E]), ("named", [GEN_E, U32]), ("unit", [])])
 add_enum([("tuple", [GEN_U, GEN_U]), ("unit", [])])
 
@@ -234,33 +247,31 @@ add_comp("#[storage(NullStorage<Self>)]", "NullStorage<@>", body=";")
 add_comp("#[storage(FlaggedStorage<Self, NullStorage<Self>>)]", "FlaggedStorage<@, NullStorage<@>>", body=";")
 
 # ---- emit ---------------------------------------------------------------------
-os.makedirs(os.path.join(out_dir, "src"), exist_ok=True)
-with open(os.path.join(out_dir, "Cargo.toml"), "w") as f:
-    f.write('''[package]
-name = "c18gen"
-version = "0.1.0"
-edition = "2021"
-publish = false
-
-[dependencies]
-specs = { path = "/repo", features = ["parallel", "serde", "uuid_entity", "derive", "storage-event-control"] }
+# A small workspace: NPARTS library crates (compiled in parallel by cargo), each holding a share of
+# the generated types and their checks, plus the binary that runs them and writes the evidence.
+NPARTS = 6
+DEPS = """specs = { path = "/repo", features = ["parallel", "serde", "uuid_entity", "derive", "storage-event-control"] }
 serde = { version = "1.0", features = ["derive"] }
 serde_json = "1.0"
-mc = { path = "../.." }
-
+mc = { path = "%s" }
+"""
+PROFILE = """
 [profile.release]
 opt-level = 0
 debug-assertions = true
 overflow-checks = true
 codegen-units = 16
 debug = false
+"""
+os.makedirs(os.path.join(out_dir, "src"), exist_ok=True)
+with open(os.path.join(out_dir, "Cargo.toml"), "w") as f:
+    f.write('[package]\nname = "c18gen"\nversion = "0.1.0"\nedition = "2021"\npublish = false\n\n[dependencies]\n' + DEPS % "../.." +
+            "".join(f'part{i} = {{ path = "part{i}" }}\n' for i in range(NPARTS)) + PROFILE +
+            "\n[workspace]\nmembers = [" + ", ".join(f'"part{i}"' for i in range(NPARTS)) + "]\n")
 
-[workspace]
-''')
-
-L = []
-L.append("// GENERATED by tools/gen_derive.py — do not edit\n#![allow(dead_code, unused_imports, clippy::all)]\n")
-L.append('''use serde::{Deserialize, Serialize};
+PRELUDE = """// GENERATED by tools/gen_derive.py - do not edit
+#![allow(dead_code, unused_imports, clippy::all)]
+use serde::{Deserialize, Serialize};
 use specs::prelude::*;
 use specs::saveload::{ConvertSaveload, Marker, MarkerAllocator, SimpleMarker, SimpleMarkerAllocator};
 use specs::storage::{BTreeStorage, DefaultVecStorage, DerefFlaggedStorage, HashMapStorage};
@@ -279,20 +290,8 @@ pub struct Inner { e: Entity, v: u32 }
 #[derive(Clone, Debug, PartialEq, ConvertSaveload)]
 pub struct InnerT(Entity, u32);
 
-''')
-regions = []
-line_no = ["".join(L).count("\n")]
-def emit_defs(defs):
-    for (nm, text) in defs:
-        start = line_no[0] + 1
-        chunk = text + "\n\n"
-        L.append(chunk)
-        line_no[0] += chunk.count("\n")
-        regions.append({"name": nm, "first_line": start, "last_line": line_no[0], "definition": text})
-emit_defs(types)
-emit_defs(comp_defs)
-L.append('''
-
+"""
+CHECK = """
 pub struct Ctx { e0: Entity, e1: Entity, f0: Entity, f1: Entity, m0: SM, m1: SM }
 
 fn check<T>(ctx: &Ctx, ty: &str, case: usize, orig: T, expect: T, json: &str, out: &mut Vec<(String, usize, String)>)
@@ -325,39 +324,71 @@ where
 
 fn storage_of<C: Component>() -> TypeId { TypeId::of::<C::Storage>() }
 
-fn main() {
-    let cli = mc::report::Cli::parse();
-    mc::util::install_quiet_hook();
-    let t0 = std::time::Instant::now();
+/// Runs this part's checks. Returns (value cases, component declarations).
+pub fn run(want: &dyn Fn(&str, usize) -> bool, fails: &mut Vec<(String, usize, String)>) -> (usize, usize) {
     let mut w = World::new();
-    let pad = w.create_entity().build();
+    let _pad = w.create_entity().build();
     let e0 = w.create_entity().build();
     let e1 = w.create_entity().build();
     let f0 = w.create_entity().build();
     let f1 = w.create_entity().build();
-    let _ = pad;
     let mut alloc = SimpleMarkerAllocator::<Tag>::new();
     let m0 = alloc.allocate(e0, Some(100));
     let m1 = alloc.allocate(e1, Some(101));
     let ctx = Ctx { e0, e1, f0, f1, m0, m1 };
-    let (e0, e1, f0, f1) = (ctx.e0, ctx.e1, ctx.f0, ctx.f1);
-    let only: Option<(String, usize)> = cli.replay.as_ref().map(|p| {
-        let v: serde_json::Value = serde_json::from_str(&std::fs::read_to_string(p).expect("replay file")).expect("replay json");
-        (v["type"].as_str().unwrap_or("").to_string(), v["case"].as_u64().unwrap_or(0) as usize)
-    });
-    let want = |ty: &str, case: usize| -> bool { match &only { Some((t, c)) => t == ty && *c == case, None => true } };
-    let mut fails: Vec<(String, usize, String)> = vec![];
     let mut cases = 0usize;
-''')
+    let mut comp_cases = 0usize;
+"""
+regions = []
+part_of = {}
+all_defs = [(nm, text) for (nm, text) in types] + [(nm, text) for (nm, text) in comp_defs]
+for i, (nm, _t) in enumerate(all_defs):
+    part_of[nm] = i % NPARTS
 case_no = {}
+test_lines = {i: [] for i in range(NPARTS)}
 for (name, orig, exp, js) in tests:
     k = case_no.get(name, 0)
     case_no[name] = k + 1
-    L.append(f"    if want({json.dumps(name)}, {k}) {{ cases += 1; check(&ctx, {json.dumps(name)}, {k}, {orig}, {exp}, {json.dumps(js)}, &mut fails); }}\n")
-L.append("    let mut comp_cases = 0usize;\n")
+    test_lines[part_of[name]].append(f"    if want({json.dumps(name)}, {k}) {{ cases += 1; check(&ctx, {json.dumps(name)}, {k}, {orig}, {exp}, {json.dumps(js)}, fails); }}\n")
+comp_name = {}
 for i, (use, expected, attr) in enumerate(comp_tests):
-    L.append(f"    if want(\"component\", {i}) {{ comp_cases += 1; if storage_of::<{use}>() != TypeId::of::<{expected}>() {{ fails.push((\"component\".into(), {i}, format!(\"derive(Component) with {{}} on {use} selected {{}} instead of {expected}\", {json.dumps(attr)}, std::any::type_name::<<{use} as Component>::Storage>()))); }} }}\n")
-L.append(f'''
+    nm = use.split("<")[0]
+    test_lines[part_of[nm]].append(f"    if want(\"component\", {i}) {{ comp_cases += 1; if storage_of::<{use}>() != TypeId::of::<{expected}>() {{ fails.push((\"component\".into(), {i}, format!(\"derive(Component) with {{}} on {use} selected {{}} instead of {expected}\", {json.dumps(attr)}, std::any::type_name::<<{use} as Component>::Storage>()))); }} }}\n")
+for pi in range(NPARTS):
+    pdir = os.path.join(out_dir, f"part{pi}")
+    os.makedirs(os.path.join(pdir, "src"), exist_ok=True)
+    with open(os.path.join(pdir, "Cargo.toml"), "w") as f:
+        f.write(f'[package]\nname = "part{pi}"\nversion = "0.1.0"\nedition = "2021"\npublish = false\n\n[dependencies]\n' + DEPS % "../../..")
+    L = [PRELUDE]
+    line_no = PRELUDE.count("\n")
+    for (nm, text) in all_defs:
+        if part_of[nm] != pi:
+            continue
+        start = line_no + 1
+        chunk = text + "\n\n"
+        L.append(chunk)
+        line_no += chunk.count("\n")
+        regions.append({"name": nm, "file": f"part{pi}/src/lib.rs", "first_line": start, "last_line": line_no, "definition": text})
+    L.append(CHECK)
+    L.append("    let (e0, e1, f0, f1) = (ctx.e0, ctx.e1, ctx.f0, ctx.f1);\n    let _ = (e0, e1, f0, f1);\n")
+    L.extend(test_lines[pi])
+    L.append("    (cases, comp_cases)\n}\n")
+    with open(os.path.join(pdir, "src", "lib.rs"), "w") as f:
+        f.write("".join(L))
+
+MAIN = f"""// GENERATED by tools/gen_derive.py - do not edit
+fn main() {{
+    let cli = mc::report::Cli::parse();
+    mc::util::install_quiet_hook();
+    let t0 = std::time::Instant::now();
+    let only: Option<(String, usize)> = cli.replay.as_ref().map(|p| {{
+        let v: serde_json::Value = serde_json::from_str(&std::fs::read_to_string(p).expect("replay file")).expect("replay json");
+        (v["type"].as_str().unwrap_or("").to_string(), v["case"].as_u64().unwrap_or(0) as usize)
+    }});
+    let want = |ty: &str, case: usize| -> bool {{ match &only {{ Some((t, c)) => t == ty && *c == case, None => true }} }};
+    let mut fails: Vec<(String, usize, String)> = vec![];
+    let (mut cases, mut comp_cases) = (0usize, 0usize);
+""" + "".join(f"    {{ let (a, b) = part{i}::run(&want, &mut fails); cases += a; comp_cases += b; }}\n" for i in range(NPARTS)) + f"""
     let n_types = {len(types)}usize;
     println!("# C18: types={{}} value_cases={{}} component_declarations={{}} failures={{}} ({{:.1}}s)", n_types, cases, comp_cases, fails.len(), t0.elapsed().as_secs_f64());
     if let Some(p) = &cli.replay {{
@@ -371,8 +402,6 @@ L.append(f'''
         oracle: msg.clone(),
         replay: serde_json::json!({{"engine": "c18gen", "type": ty, "case": case, "tier": cli.tier}}),
     }}).collect();
-    let distinct_types: std::collections::BTreeSet<&String> = fails.iter().map(|f| &f.0).collect();
-    let _ = distinct_types;
     let ev = mc::report::Evidence {{
         coverage: serde_json::json!({{
             "states": n_types + comp_cases,
@@ -380,19 +409,19 @@ L.append(f'''
             "traces_validated_against_impl": cases + comp_cases,
             "evaluations": cases + comp_cases,
             "distinct_nontrivial": n_types,
-            "rule": "every type definition of the bounded shape grammar (named / tuple structs and enums with unit, tuple and named variants; field types Entity, u32, String, two nested derived types, tuple, array, a type parameter, fields skipping conversion with and without a forwarded serde(skip, default); 1-3 fields (thorough: all triples), repeated types in every position, widths 10-12) is compiled with the real derive macro; for every value of a two-valued domain per field the converted data must equal the generator's field-wise JSON and the round trip through a non-identity marker mapping must equal the field-wise expectation; derive(Component): storage attribute forms x storage kinds by TypeId",
+            "rule": "every type definition of the bounded shape grammar (named / tuple structs and enums with unit, tuple and named variants; field types Entity, u32, String, two nested derived types, tuple, array, a type parameter, fields skipping conversion with and without a forwarded serde(skip, default), fields carrying two or three forwarded attributes; 1-3 fields (thorough: all triples), repeated types in every position, widths 10-12 with position-identifying values) is compiled with the real derive macro; for every value of a two-valued domain per field the converted data must equal the generator's field-wise JSON and the round trip through a non-identity marker mapping must equal the field-wise expectation; derive(Component): storage attribute forms x storage kinds by TypeId",
             "exhaustive": true,
             "samples": [{json.dumps(types[len(types)//2][1])}, {json.dumps(tests[len(tests)//2][1])}],
             "types": n_types,
             "component_declarations": comp_cases,
         }}),
-        assumptions: vec!["serde, serde_json, syn, quote trusted".into(), "grammar-bounded; a generated crate that does not compile is a machinery failure, not a verdict".into()],
+        assumptions: vec!["serde, serde_json, syn, quote trusted".into(), "grammar-bounded".into()],
         wall_s: t0.elapsed().as_secs_f64(),
     }};
     mc::report::conclude(&cli, ev, findings);
 }}
-''')
+"""
 with open(os.path.join(out_dir, "src", "main.rs"), "w") as f:
-    f.write("".join(L))
+    f.write(MAIN)
 json.dump(regions, open(os.path.join(out_dir, "types.json"), "w"))
-print(f"generated {len(types)} types, {len(tests)} value cases, {len(comp_tests)} component declarations")
+print(f"generated {len(types)} types, {len(tests)} value cases, {len(comp_tests)} component declarations in {NPARTS} parts")
